@@ -22,6 +22,7 @@ type MGOutVal struct {
 }
 
 type MGOutEvent struct {
+	Fmtp bool      `json:"fmtp"` // fmt.Print: operands are separated by a space only when neither is a string
 	Ln bool       `json:"ln"`
 	Vs []MGOutVal `json:"vs"`
 }
@@ -70,7 +71,7 @@ func (b MGBehaviour) Render() string {
 	var sb strings.Builder
 	for _, e := range b.Out {
 		for i, v := range e.Vs {
-			if i > 0 {
+			if i > 0 && (!e.Fmtp || (v.T != "str" && e.Vs[i-1].T != "str")) {
 				sb.WriteString(" ")
 			}
 			sb.WriteString(v.render())
